@@ -200,6 +200,37 @@ def derivative_case(ctx, r):
     derivative_compare(ctx, prog, did, chain, hist, r.random() < 0.5)
 
 
+def _fallback_mechanism(ctx, prog, did, chain, hist, flip):
+    """The recorded fall-back finding (a skipped alternative that fails for a PRESENT key and cannot be explain()ed leaves
+    that key out of the key set, so base and derivative share a store entry): attributed only if an explain() raised while
+    a key set was computed in this history AND the violation disappears under the conservative neutralisation."""
+    if getattr(ctx, "scratch", False):
+        return None
+    from labrea.types import ExplainRequest
+
+    from ..findings import classify_fallback, explain_raised
+    from ..tap import Tap
+    from ..verdict import Ctx
+
+    raised = False
+    G = build(prog)
+    for o in hist:
+        for obj in (G.root, G.expr({"k": "ds", "id": did})):
+            with Tap(types=[ExplainRequest]) as t:
+                observe(obj.evaluate, copy.deepcopy(o))
+            raised = raised or explain_raised(t.events)
+    if not raised:
+        return None
+
+    def rerun():
+        sc = Ctx(ctx.prop, ctx.tier, ctx.seed)
+        sc.scratch = True
+        derivative_compare(sc, prog, did, chain, hist, flip)
+        return len(sc.violations)
+
+    return classify_fallback(rerun)
+
+
 def derivative_compare(ctx, prog, did, chain, hist, flip):
     base = {"k": "ds", "id": did}
     G = build(prog)
@@ -240,7 +271,7 @@ def derivative_compare(ctx, prog, did, chain, hist, flip):
         ea = warm["derived"]
         if ea[0] != exp_der[0] or (ea[0] == "ok" and ea[1] != exp_der[1]):
             ctx.violation("derivative-vs-overlaid", f"derived dataset gives {short(ea)} but the dataset under the overlaid dictionary gives {short(exp_der)}",
-                          {**wit, "real": repr(ea), "ref": repr(exp_der)})
+                          {**wit, "real": repr(ea), "ref": repr(exp_der), "mechanism": _fallback_mechanism(ctx, prog, did, chain, hist[: step + 1], flip)})
             return
         # the base dataset must be unaffected by the derivative sharing its cache
         bprog = copy.deepcopy(prog)
@@ -250,7 +281,7 @@ def derivative_compare(ctx, prog, did, chain, hist, flip):
         eb = warm["base"]
         if eb[0] != exp_base[0] or (eb[0] == "ok" and eb[1] != exp_base[1]):
             ctx.violation("base-poisoned-by-derivative", f"base dataset gives {short(eb)} after its derivative ran, alone it gives {short(exp_base)}",
-                          {**wit, "real": repr(eb), "ref": repr(exp_base)})
+                          {**wit, "real": repr(eb), "ref": repr(exp_base), "mechanism": _fallback_mechanism(ctx, prog, did, chain, hist[: step + 1], flip)})
             return
         if ea != eb:
             ctx.count("overlay_mattered")
